@@ -1,76 +1,220 @@
 (* Property-level monitors: the extracted Coq specifications (boolean deciders,
-   spec functions) evaluated on the IMPLEMENTATION's inputs and outputs.  A line
-     MONITOR prop=<id> case=<case> cmd=<n> what=<text>
-   is printed for every violation. *)
+   spec functions) evaluated on the IMPLEMENTATION's inputs and outputs.  Lines:
+     MONITOR prop=<id> case=<case> cmd=<n> what=<text>      a violation
+     KNOWN prop=<id> finding=<id> case=<case> cmd=<n> what=<text>   a violation inside a known-finding class *)
 open Model
 open Driver
 
 let violations = ref 0
+let knowns = ref 0
 let checks : (string, int) Hashtbl.t = Hashtbl.create 16
 let cur = ref ("", "")
-let report prop what =
-  incr violations;
-  if !violations <= 60 then Printf.printf "MONITOR prop=%s case=%s cmd=%s what=%s\n" prop (fst !cur) (snd !cur) what
 let count prop = Hashtbl.replace checks prop (1 + (try Hashtbl.find checks prop with Not_found -> 0))
-let expect prop what b = count prop; if not b then report prop what
 
-let on_case (_id : string) (_ty : string) (_line : string) = ()
+(* ---- per-case state *)
+let ty = ref ""
+let disc = ref 0
+let tainted = ref false
+let merges_seen = ref false
+let hist : (int * sx * int list) list ref = ref []   (* author, op, deps -- newest first *)
+let pre : sx list ref = ref []
+let stats : (string, int) Hashtbl.t = Hashtbl.create 16
+let stat k = Hashtbl.replace stats k (1 + (try Hashtbl.find stats k with Not_found -> 0))
+let case_nontrivial = ref false
+(* known-finding classes the current history falls in, per property *)
+let classes : (string * string) list ref = ref []   (* (finding id, description) *)
+
+let report prop what =
+  (* a violation inside a listed known-finding class is reported as KNOWN *)
+  let kf = List.filter (fun (fid, _) -> Known.applies fid prop) !classes in
+  match kf with
+  | (fid, _) :: _ ->
+      incr knowns;
+      if !knowns <= 200 then Printf.printf "KNOWN prop=%s finding=%s case=%s cmd=%s what=%s\n" prop fid (fst !cur) (snd !cur) what
+  | [] ->
+      incr violations;
+      if !violations <= 60 then Printf.printf "MONITOR prop=%s case=%s cmd=%s what=%s\n" prop (fst !cur) (snd !cur) what
+let expect prop what b = count prop; if not b then report prop (what ())
+let expect_all props what b = List.iter (fun p -> expect p what b) props
+
+let on_case (_id : string) (t : string) (line : string) =
+  ty := t; tainted := false; merges_seen := false; hist := []; pre := []; case_nontrivial := false; classes := [];
+  (match parse_sx line with
+   | L [A "case"; _; _; A d] -> disc := int_of_string d
+   | _ -> disc := 0);
+  stat "cases"
+
+(* ---- history in model form *)
+let history_of (f : sx -> 'o) : 'o oprec list =
+  List.rev_map (fun (a, o, deps) -> mk_oprec (n_of_int a) (f o) (List.map nat_of_int deps)) !hist
+let kset l = natset_of_list (List.map nat_of_int l)
+
+let glop_sx x = ident_sx n_sx (field "id" x)
+let lww_sx x = { lww_val = n_sx (field "val" x); lww_marker = n_sx (field "marker" x) }
+let pnop_sx x = { pn_dot = dot_sx (field "dot" x); pn_dir = (match variant (field "dir" x) with "Pos" -> DPos | _ -> DNeg) }
+let pn_sx x = { pn_p = vc_sx (field "p" x); pn_n = vc_sx (field "n" x) }
+
+(* state equality per type, on model values *)
+let state_eq t (a : sx) (b : sx) : bool =
+  match t with
+  | "vclock" | "gcounter" -> vc_eqb (vc_sx a) (vc_sx b)
+  | "pncounter" -> pn_eqb (pn_sx a) (pn_sx b)
+  | "gset" -> nset_eqb (nset_sx a) (nset_sx b)
+  | "maxreg" | "minreg" -> n_sx (field "val" a) = n_sx (field "val" b)
+  | "lww" -> lww_eqb (lww_sx a) (lww_sx b)
+  | "orswot" -> orswot_eqb (orswot_sx a) (orswot_sx b)
+  | "mvreg" -> mv_perm_eqb (mv_sx a) (mv_sx b)
+  | "mapmv" -> cmap_eqb mv_dec (cmap_sx mv_inst a) (cmap_sx mv_inst b)
+           || (show_cmap mv_inst (cmap_sx mv_inst a) = show_cmap mv_inst (cmap_sx mv_inst b))
+  | "mapor" -> cmap_eqb orswot_dec (cmap_sx or_inst a) (cmap_sx or_inst b)
+  | "mapmm" -> let i = map_inst mv_inst in cmap_eqb i.v_dec (cmap_sx i a) (cmap_sx i b)
+  | "glist" -> glist_sx a = glist_sx b
+  | "list" -> clist_eqb (clist_sx a) (clist_sx b)
+  | "merkle" -> merkle_eqb (merkle_sx a) (merkle_sx b)
+  | _ -> show_sx a = show_sx b
+
+let order_free t = List.mem t ["vclock"; "gcounter"; "pncounter"; "gset"; "maxreg"; "minreg"; "lww"; "glist"; "merkle"; "mvreg"]
+let is_map t = List.mem t ["mapmv"; "mapor"; "mapmm"]
+
+(* which delivery disciplines a type promises to tolerate *)
+let discipline_ok () =
+  match !ty with
+  | "list" -> !disc = 0
+  | t when order_free t -> true
+  | _ -> !disc <= 1
 
 (* ---- C10: vector clock laws on the implementation's own results *)
 let c10_call fn a =
   let p = "C10" in
+  let e what b = expect p (fun () -> what) b in
   match fn, a with
   | "cmp", [x; y; r] ->
       let x = vc_sx x and y = vc_sx y in
       if vwfb x && vwfb y then
-        expect p (Printf.sprintf "partial_cmp(%s,%s) is %s but the pointwise order says %s" (show_vc x) (show_vc y) (atom r) (show_ord (spec_cmp x y)))
+        e (Printf.sprintf "partial_cmp(%s,%s) is %s but the pointwise order says %s" (show_vc x) (show_vc y) (atom r) (show_ord (spec_cmp x y)))
           (ord_sx r = spec_cmp x y)
   | "concurrent", [x; y; r] ->
       let x = vc_sx x and y = vc_sx y in
       if vwfb x && vwfb y then
-        expect p (Printf.sprintf "concurrent(%s,%s)=%s" (show_vc x) (show_vc y) (atom r)) (bool_sx r = (spec_cmp x y = None))
+        e (Printf.sprintf "concurrent(%s,%s)=%s" (show_vc x) (show_vc y) (atom r)) (bool_sx r = (spec_cmp x y = None))
   | "merge", [x; y; r] ->
       let x = vc_sx x and y = vc_sx y and r = vc_sx r in
       if vwfb x && vwfb y then
-        expect p (Printf.sprintf "merge(%s,%s)=%s is not the pointwise max / stores a zero" (show_vc x) (show_vc y) (show_vc r)) (spec_merge_ok x y r)
+        e (Printf.sprintf "merge(%s,%s)=%s is not the pointwise max / stores a zero" (show_vc x) (show_vc y) (show_vc r)) (spec_merge_ok x y r)
   | "glb", [x; y; r] ->
       let x = vc_sx x and y = vc_sx y and r = vc_sx r in
       if vwfb x && vwfb y then
-        expect p (Printf.sprintf "glb(%s,%s)=%s is not the pointwise min / stores a zero" (show_vc x) (show_vc y) (show_vc r)) (spec_glb_ok x y r)
+        e (Printf.sprintf "glb(%s,%s)=%s is not the pointwise min / stores a zero" (show_vc x) (show_vc y) (show_vc r)) (spec_glb_ok x y r)
   | ("reset" | "clone_without"), [x; y; r] ->
       let x = vc_sx x and y = vc_sx y and r = vc_sx r in
       if vwfb x then
-        expect p (Printf.sprintf "reset_remove(%s,%s)=%s does not keep exactly the strictly newer entries" (show_vc x) (show_vc y) (show_vc r)) (spec_reset_ok x y r)
+        e (Printf.sprintf "reset_remove(%s,%s)=%s does not keep exactly the strictly newer entries" (show_vc x) (show_vc y) (show_vc r)) (spec_reset_ok x y r)
   | "intersection", [x; y; r] ->
       let x = vc_sx x and y = vc_sx y and r = vc_sx r in
       if vwfb x then
-        expect p (Printf.sprintf "intersection(%s,%s)=%s does not keep exactly the equal entries" (show_vc x) (show_vc y) (show_vc r)) (spec_intersection_ok x y r)
+        e (Printf.sprintf "intersection(%s,%s)=%s does not keep exactly the equal entries" (show_vc x) (show_vc y) (show_vc r)) (spec_intersection_ok x y r)
   | "apply", [c; d; r] ->
       let c = vc_sx c and d = dot_sx d and r = vc_sx r in
       if vwfb c then
-        expect p (Printf.sprintf "apply(%s,%s)=%s is not max on the dot's actor" (show_vc c) (show_dot d) (show_vc r)) (spec_apply_ok c d r)
+        e (Printf.sprintf "apply(%s,%s)=%s is not max on the dot's actor" (show_vc c) (show_dot d) (show_vc r)) (spec_apply_ok c d r)
   | "validate_op", [c; d; r] ->
       let c = vc_sx c and d = dot_sx d in
-      expect p (Printf.sprintf "validate_op(%s,%s)=%s" (show_vc c) (show_dot d) (show_sx r)) (spec_validate_ok c d (range_sx r))
+      e (Printf.sprintf "validate_op(%s,%s)=%s" (show_vc c) (show_dot d) (show_sx r)) (spec_validate_ok c d (range_sx r))
   | "inc", [c; x; d] ->
       let c = vc_sx c in
-      expect p (Printf.sprintf "inc(%s,%s)=%s is not the next counter" (show_vc c) (atom x) (show_sx d)) (spec_inc_ok c (n_sx x) (dot_sx d))
+      e (Printf.sprintf "inc(%s,%s)=%s is not the next counter" (show_vc c) (atom x) (show_sx d)) (spec_inc_ok c (n_sx x) (dot_sx d))
   | _ -> ()
 
 let on_call (case : string) (cmd : string) (f : string) (a : sx list) =
   cur := (case, cmd);
-  let pre, fn = match String.index_opt f '.' with
+  let pre_, fn = match String.index_opt f '.' with
     | Some i -> (String.sub f 0 i, String.sub f (i + 1) (String.length f - i - 1))
     | None -> (f, "") in
   try
-    (match pre with
+    (match pre_ with
      | "vclock" -> c10_call fn a
      | _ -> ())
   with Bad m -> report "DRIVER" ("monitor error: " ^ m)
 
-let on_event (case : string) (cmd : string) (_sx : sx) = cur := (case, cmd)
+(* ---- spec comparison at every observation *)
+let spec_check (know : int list) (s : sx) =
+  let k = kset know in
+  let cmp prop show eq spec obs =
+    expect prop (fun () -> Printf.sprintf "state differs from the specification of its knowledge: spec=%s state=%s" (show spec) (show obs)) (eq spec obs) in
+  match !ty with
+  | "orswot" ->
+      let h = history_of oop_sx in
+      let st = orswot_sx s in
+      cmp "C04" show_orswot orswot_eqb (ospec h k) st;
+      (* the literal sentence of C04 on the read *)
+      List.iter (fun m ->
+        let m = n_of_int m in
+        expect "C04" (fun () -> Printf.sprintf "member %s: read says %b, surviving-add rule says %b" (show_n m)
+                                  (List.mem m (nset_to_list (oread st).rval)) (c04_member h k m))
+          (List.mem m (nset_to_list (oread st).rval) = c04_member h k m)) [0; 1; 2]
+  | "mvreg" -> cmp "C06" show_mv mv_perm_eqb (mvspec (history_of mvop_sx) k) (mv_sx s)
+  | "gcounter" | "vclock" -> cmp "C11" show_vc vc_eqb (gcspec (history_of dot_sx) k) (vc_sx s)
+  | "pncounter" ->
+      cmp "C11" (fun p -> show_vc p.pn_p ^ "/" ^ show_vc p.pn_n) pn_eqb (pnspec (history_of pnop_sx) k) (pn_sx s)
+  | "gset" -> cmp "C11" show_nset nset_eqb (gsspec (history_of n_sx) k) (nset_sx s)
+  | "maxreg" -> cmp "C11" show_n (=) (maxspec (n_of_int 10) (history_of n_sx) k) (n_sx (field "val" s))
+  | "minreg" -> cmp "C11" show_n (=) (minspec (n_of_int 10) (history_of n_sx) k) (n_sx (field "val" s))
+  | "lww" ->
+      cmp "C11" (fun l -> show_n l.lww_val ^ "@" ^ show_n l.lww_marker) lww_eqb
+        (lwwspec { lww_val = N0; lww_marker = N0 } (history_of lww_sx) k) (lww_sx s)
+  | "glist" -> cmp "C12" show_glist (=) (glspec (history_of glop_sx) k) (glist_sx s)
+  | "list" -> cmp "C12" show_clist clist_eqb (lspec (history_of lop_sx) k) (clist_sx s)
+  | _ -> ()
+
+let canon_props () =
+  (if !merges_seen then ["C03"]
+   else if !disc = 0 then ["C01"]
+   else ["C08"])
+  @ (if is_map !ty then ["C05"] else [])
+
+let on_event (case : string) (cmd : string) (x : sx) =
+  cur := (case, cmd);
+  try
+    match x with
+    | L [A "taint"; _] -> tainted := true; stat "tainted_cases_events"
+    | L (A "pre" :: rest) -> pre := rest
+    | L [A "op"; A _idx; A author; o; L (A "deps" :: deps)] ->
+        hist := (int_of_string author, o, List.map int_sx deps) :: !hist;
+        stat "edits";
+        classes := Known.classify !ty (List.rev_map (fun (_, o, _) -> o) !hist)
+    | L [A "ev"; A "deliver"; _; _] -> stat "deliveries"; case_nontrivial := true
+    | L [A "ev"; A "merge"; _; _] -> stat "merges"; merges_seen := true; case_nontrivial := true
+    | L [A "ev"; A "spawn"; _; _] -> stat "spawns"
+    | L [A "obs"; _; L (A "know" :: know); s] ->
+        if not !tainted && discipline_ok () then spec_check (List.map int_sx know) s
+    | L [A "canon"; _; A same; A reads; c] ->
+        if not !tainted && discipline_ok () then begin
+          let short = String.sub (show_sx c) 0 (min 300 (String.length (show_sx c))) in
+          (* reads (values and contexts of every read entry point) decide C01/C03/C08/C05 *)
+          expect_all (canon_props ())
+            (fun () -> "reads differ from those of a replica that received the same ops in causal order (canonical state=" ^ short ^ ")")
+            (reads = "true");
+          (* C20 is about == on the complete state *)
+          expect "C20"
+            (fun () -> "state is not == to the state of a replica that received the same ops in causal order (canonical state=" ^ short ^ ")")
+            (same = "true")
+        end
+    | L [A "law"; A prop; A kind; A same; A reads; a; b] ->
+        if not !tainted && discipline_ok () then begin
+          stat ("law_" ^ kind);
+          let cut x = String.sub (show_sx x) 0 (min 400 (String.length (show_sx x))) in
+          expect prop (fun () -> Printf.sprintf "%s law fails on reads: %s vs %s" kind (cut a) (cut b)) (reads = "true");
+          (* structural equality of the two results belongs to C20 *)
+          expect "C20" (fun () -> Printf.sprintf "%s: equal knowledge but the states are not ==: %s vs %s" kind (cut a) (cut b))
+            (same = "true" || state_eq !ty a b)
+        end
+    | L [A "endcase"] -> if !case_nontrivial then stat "nontrivial_cases"
+    | _ -> ()
+  with Bad m -> report "DRIVER" ("monitor error: " ^ m)
 
 let finish () =
   let l = Hashtbl.fold (fun k v acc -> (k, v) :: acc) checks [] |> List.sort compare in
-  Printf.printf "MONITORS violations=%d %s\n" !violations
-    (String.concat " " (List.map (fun (k, v) -> Printf.sprintf "%s=%d" k v) l))
+  Printf.printf "MONITORS violations=%d known=%d %s\n" !violations !knowns
+    (String.concat " " (List.map (fun (k, v) -> Printf.sprintf "%s=%d" k v) l));
+  let s = Hashtbl.fold (fun k v acc -> (k, v) :: acc) stats [] |> List.sort compare in
+  Printf.printf "STATS %s\n" (String.concat " " (List.map (fun (k, v) -> Printf.sprintf "%s=%d" k v) s))
